@@ -666,8 +666,15 @@ func (r *vRunner) doMatch(o vOp) {
 	if len(errs) > 0 && strings.HasPrefix(outcome, "failed:diff") {
 		line = vFooterLine(errs[0])
 	}
-	fmt.Fprintf(r.w, "obs %d outcome=%s errors=%d logs=%s writes=%s line=%d\n",
-		r.idx, outcome, len(errs), logsS, r.sb.writes(before, after), line)
+	// the text of a matcher failure (never compared with the model: C17's oracle looks for the failing paths in it)
+	etext := "-"
+	if len(errs) > 0 && outcome == "failed:matchers" {
+		if s, ok := errs[0].(string); ok {
+			etext = vhex([]byte(s))
+		}
+	}
+	fmt.Fprintf(r.w, "obs %d outcome=%s errors=%d logs=%s writes=%s line=%d etext=%s\n",
+		r.idx, outcome, len(errs), logsS, r.sb.writes(before, after), line, etext)
 	r.sb.pin()
 }
 
